@@ -559,7 +559,6 @@ func (s *Store[K, V]) postDelete(entry *Entry[K, V]) {
 // remove entry from cache/policy/timingwheel and add back to pool
 // this method must be used with policy mutex together
 func (s *Store[K, V]) removeEntry(entry *Entry[K, V], reason RemoveReason) {
-	entry.flag.SetRemoved(true)
 	_, index := s.index(entry.key)
 	shard := s.shards[index]
 
@@ -567,9 +566,13 @@ func (s *Store[K, V]) removeEntry(entry *Entry[K, V], reason RemoveReason) {
 		// entry might updated already
 		// update expire filed are protected by shard mutex
 		if entry.expire.Load() > s.timerwheel.clock.NowNano() {
+			// still resident: it must not be flagged removed, otherwise the
+			// pending update event (re-schedule, cost change) and all later
+			// events for it would be ignored
 			return
 		}
 	}
+	entry.flag.SetRemoved(true)
 
 	if prev := entry.meta.prev; prev != nil {
 		s.policy.Remove(entry, false)
